@@ -53,13 +53,14 @@ type refCtx struct {
 	inexactDiv bool   // an integer quotient was inexact (truncated vs exact both admissible)
 	declined   string // non-empty: the reference declines to predict this case
 	kvSeq      int
+	quirk      string // emulate one recorded defect of the implementation (classification only)
 
 	transitions int64
 	visited     *[40 * 16 * 2]bool
 }
 
 func newRefCtx(strict bool, root any, vars map[string]any, useTZ bool, zone *time.Location) *refCtx {
-	return &refCtx{strict: strict, root: root, vars: vars, useTZ: useTZ, zone: zone, cur: root, lastIdx: -1, dynLast: -1, ignoreSE: !strict}
+	return &refCtx{strict: strict, root: root, vars: vars, useTZ: useTZ, zone: zone, cur: root, lastIdx: noLast, dynLast: noLast, ignoreSE: !strict}
 }
 
 func (c *refCtx) decline(why string) {
@@ -103,6 +104,8 @@ func (c *refCtx) visit(k Kind, item any) {
 	}
 }
 
+const noLast = -1 << 40 // LAST is not defined here
+
 type emitFn func(any) *refErr
 
 // eval evaluates e (head and steps) and hands every produced item to emit.
@@ -143,7 +146,7 @@ func (c *refCtx) head(e *Expr, emit emitFn) *refErr {
 	case KCurrent:
 		return emit(c.cur)
 	case KLast:
-		if c.lastIdx < 0 {
+		if c.lastIdx == noLast {
 			return hard("LAST outside of array subscript")
 		}
 		if c.lastIdx != c.dynLast {
@@ -857,6 +860,9 @@ func (c *refCtx) index(s *Expr, v any, k emitFn) *refErr {
 		}
 		for i := from; i <= to; i++ {
 			c.lastIdx = savedLast
+			if arr[i] == nil && c.quirk == "subscript-drops-null" {
+				continue
+			}
 			if err := k(arr[i]); err != nil {
 				return err
 			}
